@@ -67,7 +67,7 @@ def run(tier, seed):
     x = sym(0)
     plan = [("K17", ["w_sqrt", "w_sqrt_std", "w_sqrt_abacus"]), ("K17A", ["w_sqrt", "w_sqrt_abacus"]), ("K20", ["w_sqrt", "w_sqrt_std"])]
     if tier == "quick":
-        plan = [("K17", ["w_sqrt", "w_sqrt_std"]), ("K17A", ["w_sqrt", "w_sqrt_abacus"])]
+        plan = [("K17", ["w_sqrt", "w_sqrt_std"]), ("K17A", ["w_sqrt", "w_sqrt_abacus"]), ("K20", ["w_sqrt"])]
     shape_done = 0
     for cfg, ws in plan:
         try:
